@@ -699,8 +699,17 @@ impl<'a> Searcher<'a> {
 
                                         if file_type.is_symlink() {
                                             if let Ok(resolved) = std::fs::read_link(&path) {
-                                                ok = true;
-                                                path = resolved;
+                                                // a relative target is relative to the directory the link is in
+                                                let target = match (resolved.is_absolute(), path.parent()) {
+                                                    (false, Some(parent)) => parent.join(&resolved),
+                                                    _ => resolved,
+                                                };
+
+                                                // links to files and dangling links are just listed
+                                                if target.is_dir() {
+                                                    ok = true;
+                                                    path = target;
+                                                }
                                             }
                                         } else if file_type.is_dir() {
                                             ok = true;
